@@ -334,9 +334,43 @@ func VerifDumpRegistry() string {
 func VerifInTesting() bool                 { return verifInTesting }
 func VerifIsDebug() bool                   { return verifIsDebug }
 func VerifKnownPathMap() map[string]string { return cpMap(knownPathMap) }
+
+// VerifKnownPathRegexps lists the regexp rules: each element of the table is read by the TYPES of its fields (one
+// *regexp.Regexp, one string), not by their names.
 func VerifKnownPathRegexps() (ret [][2]string) {
-	for _, r := range knownPathRegexpMap {
-		ret = append(ret, [2]string{r.expr.String(), r.repl})
+	tv := reflect.ValueOf(&knownPathRegexpMap).Elem()
+	if tv.Kind() != reflect.Slice && tv.Kind() != reflect.Array {
+		verifMark("VerifKnownPathRegexps: the table of regexp rules is not a list")
+		return
+	}
+	for i := 0; i < tv.Len(); i++ {
+		el := tv.Index(i)
+		for el.Kind() == reflect.Ptr || el.Kind() == reflect.Interface {
+			if el.IsNil() {
+				break
+			}
+			el = el.Elem()
+		}
+		if el.Kind() != reflect.Struct {
+			verifMark("VerifKnownPathRegexps: a regexp rule is not a struct")
+			return
+		}
+		var expr *regexp.Regexp
+		repl, nstr := "", 0
+		for j := 0; j < el.NumField(); j++ {
+			switch v := verifFieldValue(el.Field(j)).(type) {
+			case *regexp.Regexp:
+				expr = v
+			case string:
+				repl = v
+				nstr++
+			}
+		}
+		if expr == nil || nstr != 1 {
+			verifMark("VerifKnownPathRegexps: a regexp rule without a compiled pattern or without exactly one string")
+			return
+		}
+		ret = append(ret, [2]string{expr.String(), repl})
 	}
 	return
 }
@@ -460,6 +494,18 @@ func VerifInfo(e *Entry) VerifEntryInfo {
 			// (e.Level() may be computed; the stored one is what the model compares)
 			inf.Level = v
 		default:
+			// integers and strings of named types (a zone mode declared as its own type, ...) count like plain ones
+			switch f.Kind() {
+			case reflect.Int, reflect.Int8, reflect.Int16, reflect.Int32, reflect.Int64:
+				ints = append(ints, int(f.Int()))
+				continue
+			case reflect.Uint, reflect.Uint8, reflect.Uint16, reflect.Uint32, reflect.Uint64:
+				ints = append(ints, int(f.Uint()))
+				continue
+			case reflect.String:
+				strs = append(strs, f.String())
+				continue
+			}
 			// the writer set: a pointer to a struct of the package that has LWs fields
 			if f.Kind() == reflect.Ptr && !f.IsNil() && f.Type().Elem().Kind() == reflect.Struct {
 				if n, er, lv, ok := verifWriterSet(reflect.NewAt(f.Type(), unsafe.Pointer(f.UnsafeAddr())).Elem().Elem()); ok {
@@ -527,13 +573,65 @@ func verifWriterSet(d reflect.Value) (normal, errw []io.Writer, leveled map[Leve
 		return
 	}
 	normal, errw, ok = verifUnwrapList(n), verifUnwrapList(e), true
+	// the per-level table: a map from Level to LWs, or any list of (Level, LWs) pairs - found by its shape, not by its name
+	found := false
 	for i := 0; i < d.NumField(); i++ {
-		if m, isMap := verifFieldValue(d.Field(i)).(map[Level]LWs); isMap && m != nil {
-			leveled = map[Level][]io.Writer{}
-			for k, v := range m {
-				leveled[k] = verifUnwrapList(v)
+		f := d.Field(i)
+		if m, isMap := verifFieldValue(f).(map[Level]LWs); isMap {
+			found = true
+			if m != nil {
+				leveled = map[Level][]io.Writer{}
+				for k, v := range m {
+					leveled[k] = verifUnwrapList(v)
+				}
+			}
+			continue
+		}
+		if f.Kind() != reflect.Slice && f.Kind() != reflect.Array {
+			continue
+		}
+		et := f.Type().Elem()
+		if et.Kind() == reflect.Ptr {
+			et = et.Elem()
+		}
+		if et.Kind() != reflect.Struct {
+			continue
+		}
+		li, wi := -1, -1
+		for j := 0; j < et.NumField(); j++ {
+			switch et.Field(j).Type {
+			case reflect.TypeOf(Level(0)):
+				li = j
+			case reflect.TypeOf(LWs(nil)):
+				wi = j
 			}
 		}
+		if li < 0 || wi < 0 {
+			continue
+		}
+		found = true
+		for k := 0; k < f.Len(); k++ {
+			el := f.Index(k)
+			if el.Kind() == reflect.Ptr {
+				if el.IsNil() {
+					continue
+				}
+				el = el.Elem()
+			}
+			lv, ok1 := verifFieldValue(el.Field(li)).(Level)
+			ws, ok2 := verifFieldValue(el.Field(wi)).(LWs)
+			if !ok1 || !ok2 {
+				continue
+			}
+			if leveled == nil {
+				leveled = map[Level][]io.Writer{}
+			}
+			leveled[lv] = verifUnwrapList(ws)
+		}
+	}
+	if !found {
+		// the table of per-level writers has a shape this reader does not know: no verdict rather than a wrong one
+		verifMark("VerifInfo: the per-level writer table of the writer set was not recognised")
 	}
 	return
 }
